@@ -32,8 +32,8 @@ def run(ctx):
 
     th = threading.Thread(target=model)
     th.start()
-    conf = {'cases': 8, 'texts': 10, 'max_per_field': 8} if ctx.quick else {'cases': 10 ** 6, 'texts': 160, 'max_per_field': 14}
-    specs = sh.trace_specs(ctx, 'c08', 1 if ctx.quick else 2)
+    conf = {'cases': 6, 'texts': 8, 'max_per_field': 8} if ctx.quick else {'cases': 10 ** 6, 'texts': 110, 'max_per_field': 14}
+    specs = sh.trace_specs(ctx, 'c08', 1)
     specs += sh.trace_specs(ctx, 'texts', 1 if ctx.quick else 2, base=len(specs))
     res = sh.generate(specs, conf, nproc=6 if ctx.quick else 14)
     val = sh.validate_all(ctx, res)
@@ -48,3 +48,7 @@ def run(ctx):
 
 def replay(ctx, path):
     return sh.replay(ctx, path, sh.C08_CLAUSES)
+
+
+def selftest(ctx):
+    return sh.selftest(ctx)
